@@ -28,6 +28,14 @@ mutual
     | .raise, _ => by simp [evalCall]
     | .abort, _ => by simp [evalCall]
     | .catch body, c => by simp [evalCall]; exact C13_restore_acts body c
+    | .gcm hook, c => by
+        unfold evalCall
+        cases h : c.rc with
+        | none => simp
+        | some rc =>
+          by_cases h2 : (c.wc == some true) = true
+          · simp [h2]; exact C13_restore_acts hook c
+          · simp [h2]
   theorem C13_restore_acts : ∀ (h : Acts) (c : Cell), (evalActs h c).cell = c
     | .nil, _ => by simp [evalActs]
     | .cons a rest, c => by
@@ -103,6 +111,17 @@ mutual
         split
         · simpa [wscoped] using hk
         · simpa using hk
+    | .gcm hook, c, st, k, hk => by
+        unfold evalCall
+        cases h : c.rc with
+        | none => simpa [wscoped] using hk
+        | some rc =>
+          by_cases h2 : (c.wc == some true) = true
+          · simp only [h2, if_true]
+            simp only [List.cons_append, List.nil_append, wscoped]
+            exact wscoped_acts hook c st k hk
+          · simp only [h2]
+            simpa [wscoped] using hk
   theorem wscoped_acts : ∀ (h : Acts) (c : Cell) (st : List Cell) (k : List Event),
       wscoped k (c :: st) = true → wscoped ((evalActs h c).events ++ k) (c :: st) = true
     | .nil, c, st, k, hk => by simpa [evalActs] using hk
@@ -204,6 +223,13 @@ theorem C13_catch_sees_outer (a b a' b' : Bool) (c : Cell) :
       = [.enter ⟨some a, some b⟩, .enter ⟨some a', some b'⟩, .obs ⟨some a', some b'⟩, .leave ⟨some a, some b⟩, .caught,
          .obs ⟨some a, some b⟩, .leave c] := by
   simp [evalCall, evalActs, evalHooks]
+
+/-- Beneath a generator-based manager the options are still the enclosing extraction's: the contextlib glue goes down
+with `extract_child`, which pushes nothing. -/
+theorem C13_gcm_keeps_options (wc rc : Bool) (c : Cell) :
+    (evalCall (.extract wc rc (.cons (.cons (.gcm (.cons .observe .nil)) .nil) .nil)) c).events
+      = [.enter ⟨some wc, some rc⟩, .full] ++ (if wc then [.obs ⟨some wc, some rc⟩] else []) ++ [.leave c] := by
+  cases wc <;> simp [evalCall, evalActs, evalHooks]
 
 /-! #### threads: thread-locality as a frame rule, for any number of threads and any schedule -/
 
